@@ -394,7 +394,8 @@ def run(chk):
     ]
     chk.assumptions = ["-n >= 1 (n = 0 makes ring_add write into a zero-sized allocation)",
                        "stream files contain whole events only",
-                       "streams of a trace are independent (the ring is reset per stream); traces with 1 or 2 streams are exercised"]
+                       "streams of a trace are independent (the ring is reset per stream); traces with 1 or 2 streams are exercised",
+                       "a stream without events is skipped by both modes (/repo 4875105); corpus/C16/02 is the regression case"]
     chk.prove()
 
     build = common.repo_build("hook")
@@ -504,9 +505,10 @@ def run(chk):
         if all_pre:
             if res["rc"] != 0:
                 if any(len(s["events"]) == 0 for s in c["streams"]):
+                    # regression of /repo commit 4875105 (corpus/C16/02-empty-stream.json)
                     viol(c, "empty-stream-rejected",
-                                  "ovnisort exits %s on a trace with a stream that has no events (nothing is out of order)" % res["rc"],
-                                  {"case": rep, "exit": res["rc"], "stderr": res["err"], "theorem": "C16_succeeds_refuted_empty"})
+                         "ovnisort exits %s on a trace with a stream that has no events (nothing is out of order)" % res["rc"],
+                         {"case": rep, "exit": res["rc"], "stderr": res["err"], "fixed_by": "4875105"})
                 else:
                     viol(c, "fails-inside-precondition:" + key_in,
                                   "ovnisort -n %s fails (exit %s) although every out-of-order event is inside a region and within the look-back window" % (c["n"], res["rc"]),
@@ -531,7 +533,10 @@ def run(chk):
                                   "ovnisort -n %s sorts the trace (exit 0, ovnisort -c passes) but running the same command again on its own output fails (exit %s): "
                                   "find_destination wants a STRICTLY older event inside the ring, and after sorting more equal-clock/region events lie in front of it" % (c["n"], res["rc2"]),
                                   {"case": rep, "exit2": res["rc2"], "stderr2": res["err2"], "theorem": "C16_idempotent_refuted"})
-                if res["rcc"] != 0:
+                if res["rcc"] != 0 and any(len(s["events"]) == 0 for s in c["streams"]):
+                    viol(c, "empty-stream-rejected", "ovnisort -c exits %s on a trace with a stream that has no events" % res["rcc"],
+                         {"case": rep, "exit_check": res["rcc"], "stderr": res["errc"], "fixed_by": "4875105"})
+                elif res["rcc"] != 0:
                     viol(c, "check-mode-rejects:" + key_in, "ovnisort -c fails on ovnisort's own successful output", {"case": rep, "stderr": res["errc"]})
                 if c["emu"] and res.get("rce") != 0:
                     viol(c, "emulator-rejects:" + key_in, "ovniemu rejects the sorted trace", {"case": rep, "stderr": res.get("erre")})
